@@ -558,6 +558,9 @@ func (m *omap) find(fr *frame, k value) int {
 }
 
 func (m *omap) lookup(fr *frame, k value) (value, bool) {
+	if fr != nil && fr.m != nil && fr.m.raceOn {
+		fr.m.noteMap(fr, m, false)
+	}
 	idx := m.find(fr, k)
 	if idx < 0 {
 		return nil, false
@@ -566,6 +569,9 @@ func (m *omap) lookup(fr *frame, k value) (value, bool) {
 }
 
 func (m *omap) insert(fr *frame, k, v value) {
+	if fr != nil && fr.m != nil && fr.m.raceOn {
+		fr.m.noteMap(fr, m, true)
+	}
 	if m == nil {
 		panic(targetPanic{runtimeErr("assignment to entry in nil map")})
 	}
@@ -585,6 +591,9 @@ func (m *omap) insert(fr *frame, k, v value) {
 }
 
 func (m *omap) delete(fr *frame, k value) {
+	if fr != nil && fr.m != nil && fr.m.raceOn {
+		fr.m.noteMap(fr, m, true)
+	}
 	if m == nil {
 		return
 	}
